@@ -95,6 +95,9 @@ pub struct Sim {
     pub ids_issued: u64,
     /// messages of the panics raised during the run (first few), for classification
     pub panics: Vec<String>,
+    /// what the query still held in the memory pool when its last output stream reached end-of-stream
+    /// (all streams still alive); `None` if some output was abandoned early
+    pub reserved_at_last_eof: Option<usize>,
 }
 
 thread_local! {
@@ -138,6 +141,7 @@ pub fn install(policy: Policy, seed: u64, replay: Vec<u32>, step_budget: u64, lo
         log: if log { Some(vec![]) } else { None },
         ids_issued: 0,
         panics: vec![],
+        reserved_at_last_eof: None,
     };
     SIM.with(|s| *s.borrow_mut() = Some(sim));
 }
